@@ -251,41 +251,9 @@ def _matrix_kind(repo, table):
 
 def _check_groups(repo, rep):
     svg = repo["svg"]
-    dec = svg.func("_is_removable_group")
-    F = "svg._is_removable_group"
-    rep.saw(F, "svg._try_remove_group")
-    t = unparse(dec)
-    cnt = [n for n in walk_no_nested(dec) if isinstance(n, ast.Assign) and unparse(n.targets[0]) == "num_children"]
-    if cnt and unparse(cnt[0].value) == "sum((1 for e in el if not _is_redundant(e.tag)))":
-        rep.ok("R-CASE.group-retention", f"{F}: children counted over all element children, comments/PIs excluded", "", True)
-    else:
-        rep.fail("R-CASE.group-retention", F, unparse(cnt[0].value) if cnt else "num_children = ...",
-                 "the child count of the keep/flatten decision is not 'all children except comments and processing instructions': groups holding "
-                 "other groups (or other element kinds) are mis-counted and a translucent group with overlapping children is flattened", svg, dec)
-    if "if not _is_group(el):\n    return False" in t.replace("        ", "    ") or "if not _is_group(el):" in t:
-        pass
-    if "if len(el.attrib) == 0:" in t:
-        rep.ok("R-CASE.group-retention", f"{F}: attribute-less groups are always removable (decided before children are looked at)")
-    else:
-        rep.fail("R-CASE.group-retention", F, "if len(el.attrib) == 0: return True", "attribute-less wrapper groups are no longer unconditionally removable", svg, dec)
-    rets = sorted([r for r in walk_no_nested(dec) if isinstance(r, ast.Return)], key=lambda r: r.lineno)
-    last = unparse(rets[-1].value)
-    if last == "num_children <= 1 or _opacity(el) in {0.0, 1.0}":
-        rep.ok("R-CASE.group-retention", f"{F}: removable iff <=1 child or opacity in {{0,1}}", "", True)
-    else:
-        rep.fail("R-CASE.group-retention", F, last, "retention predicate changed (must be: at most one child, or clamped opacity 0 or 1)", svg, dec)
-    tr = svg.func("_try_remove_group")
-    t = unparse(tr)
-    push = [n for n in ast.walk(tr) if isinstance(n, ast.If) and unparse(n.test) == "push_opacity"]
-    ok = False
-    if push:
-        b = unparse(push[0])
-        ok = "for child in children:" in b and "if _is_redundant(child.tag):" in b and "_inherit_attrib({'opacity': opacity}, child)" in b
-    if ok and "children = list(group_el)" in t and "opacity = _opacity(group_el)" in t:
-        rep.ok("R-CASE.group-retention", "svg._try_remove_group: on removal the group's opacity multiplies into every non-redundant child", "", True)
-    else:
-        rep.fail("R-CASE.group-retention", "svg._try_remove_group", "_inherit_attrib({'opacity': opacity}, child) for every non-redundant child",
-                 "a dissolved group's opacity is no longer pushed to each of its children (through the multiplying opacity handler)", svg, tr)
+    from sa.rules import groups
+    groups.check_removable_predicate(repo, rep, "R-CASE.group-retention", "keep-or-flatten decision")
+    groups.check_try_remove_group(repo, rep, "R-CASE.group-retention", "flattening / retention effect")
     # call-site agreement: opacity of a dissolved wrapper reaches the children exactly once
     n_sites = 0
     for q, f in svg.functions.items():
